@@ -111,6 +111,21 @@ class Eraser:
             for x, m in ((a[0], a[1]), (a[1], a[0])):
                 ms = z3.simplify(m)
                 if z3.is_bv_value(ms) and ms.as_long() == 1 << (w - 1): return -s.bits(x)
+                if z3.is_bv_value(ms) and ms.as_long() == 0: return s.bits(x)
+            for x, m in ((a[0], a[1]), (a[1], a[0])):
+                # conditional sign flip: x ^ (mask built from a few conditions)
+                cs = s._conds_only(m)
+                if cs:
+                    def rec(i, mm):
+                        if i == len(cs):
+                            v = z3.simplify(mm)
+                            if not z3.is_bv_value(v): raise Unsupported('erase: xor mask did not reduce')
+                            if v.as_long() == 0: return s.bits(x)
+                            if v.as_long() == 1 << (w - 1): return -s.bits(x)
+                            raise Unsupported('erase: xor with constant %#x' % v.as_long())
+                        c = cs[i]
+                        return z3.If(s.bool(c), rec(i + 1, z3.substitute(mm, (c, z3.BoolVal(True)))), rec(i + 1, z3.substitute(mm, (c, z3.BoolVal(False)))))
+                    return rec(0, m)
         if d == z3.Z3_OP_BOR and len(a) == 2:
             # (x & m) | (y & ~m)
             def split(t):
@@ -127,6 +142,22 @@ class Eraser:
         r = s._case_split(b)
         if r is not None: return r
         raise Unsupported('erase: bit-vector pattern %s' % b.decl().name())
+    def _conds_only(s, b):
+        """conditions of a bit-vector term that is built only from constants selected by ite conditions (else None)"""
+        conds = []; seen = set(); st = [b]
+        while st:
+            x = st.pop()
+            if x.get_id() in seen: continue
+            seen.add(x.get_id())
+            if z3.is_bv_value(x): continue
+            if z3.is_app_of(x, z3.Z3_OP_ITE) and z3.is_bv(x):
+                c = x.arg(0)
+                if not any(c.eq(q) for q in conds): conds.append(c)
+                st.append(x.arg(1)); st.append(x.arg(2)); continue
+            if z3.is_bv(x) and x.num_args() > 0 and x.decl().kind() in (z3.Z3_OP_CONCAT, z3.Z3_OP_EXTRACT, z3.Z3_OP_BAND, z3.Z3_OP_BOR, z3.Z3_OP_BXOR, z3.Z3_OP_BNOT, z3.Z3_OP_BSHL, z3.Z3_OP_BLSHR):
+                st.extend(x.children()); continue
+            return None
+        return conds if conds and len(conds) <= 6 else None
     def _case_split(s, b):
         """bit pattern assembled from constants selected by a few Boolean conditions (sign()/mask construction): enumerate the conditions"""
         conds = []; seen = set(); st = [b]
